@@ -40,6 +40,39 @@ func checkC17(c *Ctx) {
 	c.Expect("C17.5", 3)
 	c17Height(c)
 	c17KauriUsesChildList(c)
+	// C17.7 the leader of a tree configuration is the tree's root, as every replica's own tree reports it: the proposal
+	// is pushed down from the root and the votes travel up to it, so any other leader proposes into an empty subtree
+	if gl := p.Method("protocol/leaderrotation", "TreeBased", "GetLeader"); gl != nil {
+		fl := NewFlow(p, gl)
+		n := 0
+		var bad []string
+		for _, r := range returnsOf(gl) {
+			if !fl.Reachable(r.Block()) {
+				continue
+			}
+			facts := fl.At(r)
+			if !trueOf(facts, func(k string) bool { return strings.HasPrefix(k, "(*hs/core.RuntimeConfig).HasKauriTree(") }) {
+				continue // no tree configured: nothing to agree with
+			}
+			n++
+			if k := fl.K.Key(retValue(r, 0)); !strings.HasPrefix(k, "(hs/internal/tree.Tree).Root(") && !strings.HasPrefix(k, "(*hs/internal/tree.Tree).Root(") {
+				bad = append(bad, p.Pos(r.Pos())+" returns "+shortVal(k))
+			}
+		}
+		// a version without the HasKauriTree test at all: every return must be the root
+		if n == 0 {
+			for _, r := range returnsOf(gl) {
+				n++
+				if k := fl.K.Key(retValue(r, 0)); !strings.Contains(k, "hs/internal/tree.Tree).Root(") {
+					bad = append(bad, p.Pos(r.Pos())+" returns "+shortVal(k))
+				}
+			}
+		}
+		c.Check(n > 0 && len(bad) == 0, "C17.7", "TreeBased.GetLeader: the leader is the root of the configured tree", p.FuncPos(gl),
+			"with a tree configured, GetLeader returns config.Tree().Root()", "with a tree configured the leader is not the tree's root: "+join(bad))
+	} else {
+		c.Unresolved("C17.7", "TreeBased.GetLeader", "anchor missing")
+	}
 
 	// C17.1 immutability
 	for _, f := range []string{"id", "height", "branchFactor", "treePosToID"} {
@@ -557,7 +590,6 @@ func c17Height(c *Ctx) {
 	c.Check(okStore && nStore == 1, "C17.5", "NewSimple: height = treeHeight(len(positions), branchFactor)", p.FuncPos(ns),
 		"the stored height is the level count of the configured size and branch factor", "Tree.height is not treeHeight(len(treePositionIDs), branchFactor)")
 }
-
 
 // c17KauriUsesChildList (C17.6): Kauri decides between "push the proposal to my children and wait
 // for their votes" and "I have nobody below me: send my vote up" by the list of children the tree
